@@ -84,7 +84,7 @@ def apply_tweak(ex, xonly):
 @ob("C16", "musig2_partial_sig_aggregation_is_bip327", quick=[dict(k=1), dict(k=2), dict(k=3)],
     bound="k partial signatures of 32 symbolic bytes each, session values e, tacc symbolic and parity of Q symbolic: s = sum(s_i) + e*g*tacc mod n; a partial signature >= n is refused naming its index",
     stubs=["session_values is an arbitrary record; the product e*tacc is uninterpreted on both sides"],
-    functions=["btclib.ecc.musig2._agg_s"], timeout=600, min_ok=1)
+    functions=["btclib.ecc.musig2._agg_s"], timeout=900, min_ok=1, query_timeout_ms=300000)
 def agg_s(ex, k):
     ex.merge_conditionals()
     ex.abstract_wide_arith(200, div_bits=None)
@@ -226,7 +226,7 @@ def bip373_nonces(ex, n):
     bound="session value b symbolic over 0..n-1, gacc symbolic over its two possible values {1, n-1}, parities of Q and of R symbolic, e and the key aggregation coefficient a fixed 256-bit constants: the Python arm of partial_sig_verify_ multiplies the signer's key "
           "by e*a*g' with g' = g*gacc mod n, g = 1 for an even-y Q and n-1 otherwise, negates the effective nonce exactly when R has odd y, and multiplies the second nonce by b",
     stubs=["session_values, _cpoint, _session_key_agg_coeff, mult, secp256k1.add_var / negate are abstract (they record their operands)"],
-    functions=["btclib.ecc.musig2.partial_sig_verify_"], timeout=600, min_ok=1)
+    functions=["btclib.ecc.musig2.partial_sig_verify_"], timeout=900, min_ok=1, query_timeout_ms=300000)
 def partial_sig_verify_scalar(ex):
     ex.merge_conditionals()
     ex.prefer_int()
